@@ -68,6 +68,9 @@ func (x *Explorer) enter(fr *frame, from, b *ssa.BasicBlock) {
 		}
 		newPhi = append(newPhi, t)
 	}
+	if general && x.Opts.LoopInvariants && lm != nil {
+		x.seedLoopInvariants(fr, b, lm, newPhi)
+	}
 	// parallel assignment
 	for k, t := range newPhi {
 		x.setEnv(fr, b.Instrs[k].(*ssa.Phi), t)
@@ -440,4 +443,247 @@ func (x *Explorer) loadArray(addr *Term, at *types.Array, typ types.Type) *Term 
 		args = append(args, x.load(ia, at.Elem()))
 	}
 	return x.T.mk(Term{Kind: KSliceLit, Op: token.LBRACK, Args: args, Type: typ})
+}
+
+// seedLoopInvariants adds facts about counters of a generalised loop head:
+// for phi = φ(c0 from outside, phi + k from inside, k > 0): phi >= c0; and if
+// the head (or the block computing phi+1 for range loops) tests phi' < T with
+// T not modified in the loop: phi <= T (resp. phi+1 <= T), provided c0 <= T.
+func (x *Explorer) seedLoopInvariants(fr *frame, b *ssa.BasicBlock, lm *loopMod, newPhi []*Term) {
+	x.seedPairInvariants(fr, b, lm, newPhi)
+	for k, t := range newPhi {
+		phi := b.Instrs[k].(*ssa.Phi)
+		if bt, ok := phi.Type().Underlying().(*types.Basic); !ok || bt.Info()&types.IsInteger == 0 {
+			continue
+		}
+		var c0 int64
+		haveC0, good := false, true
+		step := int64(0)
+		for i, e := range phi.Edges {
+			inside := lm.body[b.Preds[i]]
+			if !inside {
+				var v int64
+				if c, isC := e.(*ssa.Const); isC && c.Value != nil {
+					v = c.Int64()
+				} else if lo, has := x.lower(x.eval(fr, e)); has {
+					v = lo
+				} else {
+					good = false
+					break
+				}
+				if !haveC0 || v < c0 {
+					c0, haveC0 = v, true
+				}
+				continue
+			}
+			lo, _, okStep := stepOf(e, phi, 0, map[ssa.Value]bool{})
+			if !okStep || lo < 0 {
+				good = false
+				break
+			}
+			if lo > 0 && (step == 0 || lo < step) {
+				step = lo
+			}
+			if lo == 0 {
+				step = -1 // the counter does not advance on every back edge: no upper invariant
+			}
+		}
+		if !good || !haveC0 {
+			continue
+		}
+		x.tighten(t, c0, true)
+		// upper invariant from the loop test
+		x.seedUpper(fr, b, lm, phi, t, c0, step)
+	}
+}
+
+// seedUpper: find `if cur < T` guarding the loop where cur is phi or phi+1
+// computed in the head, T loop-invariant; then cur <= T is invariant at the
+// test when the counter only grows by 1 per iteration under cur < T.
+func (x *Explorer) seedUpper(fr *frame, b *ssa.BasicBlock, lm *loopMod, phi *ssa.Phi, t *Term, c0, step int64) {
+	if step != 1 {
+		return
+	}
+	iff, ok := b.Instrs[len(b.Instrs)-1].(*ssa.If)
+	if !ok {
+		return
+	}
+	cmp, ok := iff.Cond.(*ssa.BinOp)
+	if !ok || cmp.Op != token.LSS {
+		return
+	}
+	// both successors: true stays in loop, false leaves it
+	if !lm.body[b.Succs[0]] || lm.body[b.Succs[1]] {
+		return
+	}
+	var off int64
+	switch l := cmp.X.(type) {
+	case *ssa.Phi:
+		if l != phi {
+			return
+		}
+	case *ssa.BinOp:
+		if l.Op != token.ADD || l.Block() != b {
+			return
+		}
+		c, isC := l.Y.(*ssa.Const)
+		if l.X != ssa.Value(phi) || !isC || c.Value == nil || c.Int64() != 1 {
+			return
+		}
+		off = 1
+	default:
+		return
+	}
+	// the counter's increment on the back edge must be the tested value (range: phi' = phi+1 tested) or happen after the test
+	// T must be loop-invariant: defined outside the loop body
+	if ti, isI := cmp.Y.(ssa.Instruction); isI && lm.body[ti.Block()] {
+		// len(s) recomputed in the head is fine if s itself is defined outside the loop
+		call, isCall := cmp.Y.(*ssa.Call)
+		if !isCall {
+			return
+		}
+		bi, isB := call.Call.Value.(*ssa.Builtin)
+		if !isB || bi.Name() != "len" {
+			return
+		}
+		if ai, isAI := call.Call.Args[0].(ssa.Instruction); isAI && lm.body[ai.Block()] {
+			return
+		}
+	}
+	T := x.eval(fr, cmp.Y)
+	if T.Kind == KOpaque {
+		if call, isCall := cmp.Y.(*ssa.Call); isCall {
+			if bi, isB := call.Call.Value.(*ssa.Builtin); isB && bi.Name() == "len" {
+				T = x.Len(x.eval(fr, call.Call.Args[0]))
+			}
+		}
+	}
+	// base case: c0 + off <= T  (T >= 0 for lengths)
+	lo, has := x.lower(T)
+	if !has || c0+off > lo {
+		return
+	}
+	// invariant: phi + off <= T, i.e. !(T < phi + off)
+	cur := t
+	if off != 0 {
+		cur = x.Bin(token.ADD, t, x.T.Const(constantInt(off), t.Type), t.Type)
+	}
+	lt := x.Lt(T, cur)
+	if lt.Kind == KLt || lt.Kind == KNot {
+		pol := false
+		if lt.Kind == KNot {
+			lt, pol = lt.Args[0], true
+		}
+		x.setFact(lt, pol)
+	}
+}
+
+// stepOf: value e (on a back edge) equals phi + k for k in [lo, hi] on every
+// way it can be computed (looking through merge phis inside the loop body).
+func stepOf(e ssa.Value, phi *ssa.Phi, depth int, seen map[ssa.Value]bool) (lo, hi int64, ok bool) {
+	if e == ssa.Value(phi) {
+		return 0, 0, true
+	}
+	if depth > 6 || seen[e] {
+		return 0, 0, false
+	}
+	seen[e] = true
+	switch v := e.(type) {
+	case *ssa.BinOp:
+		if v.Op != token.ADD && v.Op != token.SUB {
+			return 0, 0, false
+		}
+		var base ssa.Value
+		var kc *ssa.Const
+		if c, isC := v.Y.(*ssa.Const); isC {
+			base, kc = v.X, c
+		} else if c, isC := v.X.(*ssa.Const); isC && v.Op == token.ADD {
+			base, kc = v.Y, c
+		}
+		if kc == nil || kc.Value == nil {
+			return 0, 0, false
+		}
+		k := kc.Int64()
+		if v.Op == token.SUB {
+			k = -k
+		}
+		l, h, ok := stepOf(base, phi, depth+1, seen)
+		return l + k, h + k, ok
+	case *ssa.Phi:
+		first := true
+		for _, ed := range v.Edges {
+			l, h, ok := stepOf(ed, phi, depth+1, seen)
+			if !ok {
+				return 0, 0, false
+			}
+			if first || l < lo {
+				lo = l
+			}
+			if first || h > hi {
+				hi = h
+			}
+			first = false
+		}
+		return lo, hi, !first
+	}
+	return 0, 0, false
+}
+
+// seedPairInvariants: for two integer counters a, b of one loop head such that
+// on every back edge a advances at least as much as b ever does, (a - b) never
+// decreases; if b0 + 1 <= a0 (resp. b0 <= a0) holds at entry the fact b < a
+// (resp. b <= a) is invariant.
+func (x *Explorer) seedPairInvariants(fr *frame, blk *ssa.BasicBlock, lm *loopMod, newPhi []*Term) {
+	type ctr struct {
+		phi    *ssa.Phi
+		t      *Term
+		init   *Term
+		lo, hi int64
+	}
+	var cs []ctr
+	for k, t := range newPhi {
+		phi := blk.Instrs[k].(*ssa.Phi)
+		if bt, ok := phi.Type().Underlying().(*types.Basic); !ok || bt.Info()&types.IsInteger == 0 {
+			continue
+		}
+		c := ctr{phi: phi, t: t}
+		good, first := true, true
+		nOut := 0
+		for i, e := range phi.Edges {
+			if !lm.body[blk.Preds[i]] {
+				nOut++
+				c.init = x.eval(fr, e)
+				continue
+			}
+			l, h, ok := stepOf(e, phi, 0, map[ssa.Value]bool{})
+			if !ok {
+				good = false
+				break
+			}
+			if first || l < c.lo {
+				c.lo = l
+			}
+			if first || h > c.hi {
+				c.hi = h
+			}
+			first = false
+		}
+		if good && nOut == 1 && !first {
+			cs = append(cs, c)
+		}
+	}
+	for _, a := range cs {
+		for _, b := range cs {
+			if a.phi == b.phi || a.lo < b.hi || a.lo < 0 {
+				continue
+			}
+			one := x.T.Const(constantInt(1), b.init.Type)
+			switch {
+			case x.ProveLeq(x.Bin(token.ADD, b.init, one, b.init.Type), a.init):
+				x.AssumeLit(x.Lt(b.t, a.t), true)
+			case x.ProveLeq(b.init, a.init):
+				x.AssumeLit(x.Lt(a.t, b.t), false)
+			}
+		}
+	}
 }
